@@ -285,7 +285,21 @@ def rule_getters(ck):
     o = ck.ob('C13-D7.acc', f, accs[0] if accs else 'data += counts', accs[0] if accs else lp)
     good = len(accs) == 1 and cnt and (u(cnt[0]) in u(ex.expand(accs[0].value)) or 'spatial_magnitude_counts' in u(ex.expand(accs[0].value)))
     (o.ok() if good else o.fail('the gridded counts of each catalog are not accumulated with +='))
-    divs = [a for a in find_assignments(f, accs[0].target.id if accs and isinstance(accs[0].target, ast.Name) else 'data')
+    # the accumulator is set up by the first catalog of the pass: no catalog may be skipped before that happened
+    accname = accs[0].target.id if accs and isinstance(accs[0].target, ast.Name) else 'data'
+    inits = [a for a in find_assignments(f, accname) if isinstance(a, ast.Assign) and in_loop(a, f.node) is lp]
+    if inits:
+        def top(n):
+            while getattr(n, '_parent', None) is not lp:
+                n = n._parent
+            return lp.body.index(n) if n in lp.body else len(lp.body)
+        conts = [x for x in body if isinstance(x, ast.Continue) and in_loop(x, f.node) is lp]
+        early = [c for c in conts if top(c) < max(top(a) for a in inits)]
+        o = ck.ob('C13-D7.everycat', f, 'no catalog is skipped before the accumulator is set up', early[0] if early else lp)
+        (o.fail('a `continue` stands before `%s`, which sets the accumulator up during the first iteration only: when the first catalog '
+                'is skipped the sum is never initialised, so the expected rates depend on which catalog is stored first' % u(inits[0])[:60])
+         if early else o.ok())
+    divs = [a for a in find_assignments(f, accname)
             if isinstance(a, ast.Assign) and isinstance(a.value, ast.BinOp) and in_loop(a, f.node) is None]
     o = ck.ob('C13-D7.mean', f, divs[0] if divs else 'data / n_cat', divs[0] if divs else f.node)
     good = len(divs) == 1 and isinstance(divs[0].value.op, ast.Div) and u(divs[0].value.right) == 'self.n_cat' and divs[0].lineno > lp.lineno
@@ -538,4 +552,13 @@ def rule_filters_applied(ck):
     c02.rule_callsites(ck)
 
 
-RULES = [rule_writers, rule_init, rule_next, rule_getters, rule_complete_passes, rule_consumers, rule_tolerance_shared, rule_rates_view, rule_precheck, rule_filters_applied]
+def rule_stream_shared(ck):
+    """a streamed pass yields what an in-memory forecast of the same catalogs yields: the loader flushes every catalog of the file,
+    the last one and empty ones included (shared C12-D2)"""
+    from . import c12
+    ck.clause('D1 (shared C12-D2: the loader flushes every catalog of the file, the final and the empty ones included)')
+    c12.rule_flush(ck)
+
+
+RULES = [rule_writers, rule_init, rule_next, rule_getters, rule_complete_passes, rule_consumers, rule_tolerance_shared, rule_rates_view, rule_precheck, rule_filters_applied,
+         rule_stream_shared]
